@@ -124,6 +124,18 @@ pub fn generate(seed: u64, k_seeds: usize) -> Sc {
     let mut secs: Vec<&str> = SECS.to_vec();
     r.shuffle(&mut secs);
     secs.truncate(n_sec);
+    // Securities are case-sensitive strings: names that differ only in case are
+    // distinct securities that collide under any case-folding key.
+    if n_sec >= 2 && r.chance(1, 4) {
+        let variants: &[(&str, &[&str])] = &[("FOO", &["Foo", "foo"]), ("BAR", &["Bar", "bar"]), ("XYZ", &["xyz"]), ("VFV.TO", &["vfv.to", "Vfv.To"]), ("QQQ", &["qqq"]), ("ZAG", &["Zag", "zag"])];
+        let base = secs[0];
+        if let Some((_, vs)) = variants.iter().find(|(b, _)| *b == base) {
+            secs[1] = *r.pick(vs);
+            if n_sec >= 3 && vs.len() >= 2 && r.chance(1, 2) {
+                secs[2] = vs[1];
+            }
+        }
+    }
     let n_aff = r.weighted(&[2, 3, 3, 2]) + 1;
     let mut affs: Vec<&str> = AFFS[1..].to_vec();
     r.shuffle(&mut affs);
@@ -659,6 +671,13 @@ fn probes(sc: &Sc, mode: Mode, out: &RunOutput, st: &mut Stats) -> bool {
             if text.matches("Transactions for ").count() >= 2 {
                 mark(st, "probe.ge2_securities_rendered");
             }
+            {
+                let names: BTreeSet<String> = sc.files.iter().flat_map(|f| f.rows.iter().map(|r| r[C_SEC].clone())).collect();
+                let folded: BTreeSet<String> = names.iter().map(|n| n.to_lowercase()).collect();
+                if folded.len() < names.len() {
+                    mark(st, "probe.securities_differing_only_in_case");
+                }
+            }
             if text.contains("[!] ") {
                 mark(st, "probe.security_error_rendered");
             }
@@ -889,6 +908,7 @@ impl Engine for C09 {
             "probe.summary_ge2_affiliates",
             "probe.summary_ge2_securities",
             "probe.hash_seed_changed_probe_set_order",
+            "probe.securities_differing_only_in_case",
         ]
     }
 }
